@@ -50,7 +50,11 @@ def run(ctx):
     exe = rh.build_cpp(ctx)
     triples = gen_triples(ctx, 300 if ctx.quick else 8000)
     # corpus: the defects seen at design time
-    triples = [(1, 0.0, 0.12), (1, 0.12, 0.0), (0, 1.0, 0.75), (2, 5.0, 4.9)] + triples
+    import math as _m
+    triples = [(1, 0.0, 0.12), (1, 0.12, 0.0), (0, 1.0, 0.75), (2, 5.0, 4.9),
+               # two times that coincide up to floating-point fuzz (an accumulated 0.1+0.1+0.1 against the literal 0.3), both ways
+               (0, 0.1 + 0.1 + 0.1, 0.3), (0, 0.3, 0.1 + 0.1 + 0.1), (1, 1.0000000000000002, 1.0), (2, 5.0, _m.nextafter(5.0, -_m.inf)),
+               (3, 100.0, _m.nextafter(100.0, -_m.inf)), (5, -2.5, _m.nextafter(-2.5, -_m.inf))] + triples
     # long catch-up moves: tens of thousands of steps in one go (rounding must not accumulate)
     longs = [(0, 0.0, 3000.0), (0, 10000.0, 0.0), (4, 1000.0, 1030.0), (1, -250.0, 1250.0 + ctx.rng.random()),
              # more than a hundred thousand steps in one move (a filter left idle): still none longer than the maximum
@@ -135,6 +139,11 @@ def two_segment_ticks(ctx, exe):
         o1 = t0 + m * ctx.rng.randint(-30, 50) / 10
         o2 = t0 + m * ctx.rng.randint(-30, 50) / 10
         cases.append((k, t0, [{"out": o1, "readings": [(ts, 0)]}, {"out": o2, "readings": []}]))
+    # a reading stamped EXACTLY 0.0 (the first sample of a log, a clock crossing zero) while the filter is somewhere else
+    for k in range(len(rh.MAXDTS)):
+        m = rh.MAXDTS[k]
+        for t0, o1, o2 in ((2.0 * m, 3.5 * m, 1.0 * m), (-1.1 * m, 0.6 * m, -2.0 * m)):
+            cases.append((k, t0, [{"out": o1, "readings": [(0.0, 1)]}, {"out": o2, "readings": []}]))
     runs = {"python": [rh.py_history(rh.MAXDTS[k], t0, h)["outs"] for k, t0, h in cases]}
     if exe:
         for c in rh.COMBOS:
